@@ -211,10 +211,12 @@ class VariableTransformer:
 
         numeps = 1e-6  # accepted numerical error
         tests = np.zeros(4)
-        tests[0] = np.all(np.abs(ginv(g(lbtest)) - lbtest) < numeps)
-        tests[1] = np.all(np.abs(ginv(g(ubtest)) - ubtest) < numeps)
-        tests[2] = np.all(np.abs(ginv(g(self.orig_plb)) - self.orig_plb) < numeps)
-        tests[3] = np.all(np.abs(ginv(g(self.orig_pub)) - self.orig_pub) < numeps)
+        # numerical error accepted relative to the magnitude of the bound (absolute below 1)
+        tol_of = lambda v: numeps * np.maximum(1.0, np.abs(v))
+        tests[0] = np.all(np.abs(ginv(g(lbtest)) - lbtest) < tol_of(lbtest))
+        tests[1] = np.all(np.abs(ginv(g(ubtest)) - ubtest) < tol_of(ubtest))
+        tests[2] = np.all(np.abs(ginv(g(self.orig_plb)) - self.orig_plb) < tol_of(self.orig_plb))
+        tests[3] = np.all(np.abs(ginv(g(self.orig_pub)) - self.orig_pub) < tol_of(self.orig_pub))
         if not np.all(tests):
             raise ValueError("Cannot invert the transform to obtain the identity at the provided boundaries.")
 
